@@ -2,7 +2,7 @@
    (C14_lookup), the association functions keep table, thread fields and call
    log consistent (C14_create_free_balanced), and fail atomically
    (C14_failure_atomic). *)
-From Coq Require Import List ZArith Bool Lia Znumtheory.
+From Coq Require Import List ZArith Bool Lia Znumtheory Permutation.
 From ABT Require Import Common.ListAux DS.UnitMap.
 Import ListNotations.
 Local Open Scope Z_scope.
@@ -318,6 +318,165 @@ Proof.
   - rewrite nth_upd_nth_ne by auto. destruct (H i Hi) as [Hndi Hbi]. split; auto.
     intros u' th' Hu'. fold (nth_bucket t i). rewrite (Hbi u' th' Hu'). rewrite HR'.
     split; [|tauto]. intros [? ?]. repeat split; auto. congruence.
+Qed.
+
+(* ------------------------------------------------------------------ *)
+(* the same-handle move: map(u) while u is mapped, then unmap(u)        *)
+(* ------------------------------------------------------------------ *)
+(* ABTI_thread_set_associated_pool / ABTI_unit_set_associated_pool, branch
+   "associated with different custom pools", when the new pool's create_unit
+   hands out the handle the work unit already has: map(u, th) runs while
+   (u, th) is in the table - the bucket then holds the key u twice (in a reused
+   tombstone or in a new head cell) - and unmap(u) tombstones the FIRST cell
+   with key u, whichever of the two that is.  [bucket_rep] does not hold in
+   between (the keys are not distinct); the argument goes through the multiset
+   of non-tombstone cells. *)
+Definition livec (b : bucket) : list cell := filter (fun c : cell => nz (fst c)) b.
+
+Lemma nzunits_livec b : nzunits b = map fst (livec b).
+Proof.
+  unfold nzunits, livec. induction b as [|[cu cth] b IH]; cbn; auto.
+  destruct (nz cu); cbn; congruence.
+Qed.
+
+Lemma livec_app b1 b2 : livec (b1 ++ b2) = livec b1 ++ livec b2.
+Proof. apply filter_app. Qed.
+
+Lemma in_livec b u th : In (u, th) (livec b) <-> u <> UNIT_NULL /\ In (u, th) b.
+Proof.
+  unfold livec. rewrite filter_In. cbn. unfold nz.
+  destruct (Z.eqb_spec u UNIT_NULL); cbn; intuition congruence.
+Qed.
+
+Lemma livec_cons_nz u th b : u <> UNIT_NULL -> livec ((u, th) :: b) = (u, th) :: livec b.
+Proof. intros H. unfold livec. cbn. unfold nz. destruct (Z.eqb_spec u UNIT_NULL); [contradiction|reflexivity]. Qed.
+
+Lemma livec_cons_null th b : livec ((UNIT_NULL, th) :: b) = livec b.
+Proof. unfold livec. cbn. unfold nz. rewrite Z.eqb_refl. reflexivity. Qed.
+
+Lemma bucket_rep_perm i b b' R :
+  Permutation (livec b) (livec b') -> bucket_rep i b R -> bucket_rep i b' R.
+Proof.
+  intros P [Hnd Hb]. split.
+  - rewrite nzunits_livec in *. eapply Permutation_NoDup; [|exact Hnd].
+    apply Permutation_map. exact P.
+  - intros u th Hu. rewrite <- (Hb u th Hu). split; intros Hin.
+    + assert (H : In (u, th) (livec b')) by (apply in_livec; auto).
+      apply (Permutation_in _ (Permutation_sym P)) in H. apply in_livec in H. tauto.
+    + assert (H : In (u, th) (livec b)) by (apply in_livec; auto).
+      apply (Permutation_in _ P) in H. apply in_livec in H. tauto.
+Qed.
+
+(* a successful map adds one non-tombstone cell (u, th), whatever is there *)
+Lemma bucket_map_perm b u th ok b' :
+  bucket_map b u th ok = (b', true) -> u <> UNIT_NULL ->
+  Permutation (livec b') ((u, th) :: livec b).
+Proof.
+  unfold bucket_map. intros E Hu. destruct (bucket_reuse b u th) as [b0|] eqn:Er.
+  - inversion E; subst.
+    destruct (bucket_reuse_some _ _ _ _ Er) as (b1 & cth & b2 & -> & -> & _).
+    rewrite !livec_app, livec_cons_null, livec_cons_nz by auto.
+    apply Permutation_sym, Permutation_middle.
+  - destruct ok; inversion E; subst. rewrite livec_cons_nz by auto. apply Permutation_refl.
+Qed.
+
+Lemma bucket_get_first b1 u cth b2 :
+  (forall c, In c b1 -> fst c <> u) -> bucket_get (b1 ++ (u, cth) :: b2) u = Some cth.
+Proof.
+  induction b1 as [|[cu0 cth0] b1 IH]; cbn; intros H.
+  - rewrite Z.eqb_refl. reflexivity.
+  - destruct (Z.eqb_spec cu0 u) as [E|_].
+    + exfalso. apply (H (cu0, cth0)); auto.
+    + apply IH. intros c Hc. apply H. auto.
+Qed.
+
+(* bucket level: map(u, th) on a bucket that already holds (u, th), then
+   unmap(u): lookups of u give th in between, and afterwards the bucket
+   represents what it represented before *)
+Lemma bucket_remap_same i b R u th ok b' r :
+  bucket_rep i b R -> u <> UNIT_NULL -> In (u, th) b -> bucket_map b u th ok = (b', r) ->
+  (r = true /\ bucket_get b' u = Some th /\
+   exists b'', bucket_unmap b' u = Some b'' /\ bucket_rep i b'' R) \/
+  (r = false /\ ok = false /\ b' = b).
+Proof.
+  intros Hrep Hu Hin E. destruct r.
+  - left. split; [reflexivity|].
+    pose proof (bucket_map_perm _ _ _ _ _ E Hu) as P1.
+    assert (Hin' : In (u, th) b').
+    { assert (H : In (u, th) (livec b')) by (apply (Permutation_in _ (Permutation_sym P1)); left; reflexivity).
+      apply in_livec in H. tauto. }
+    destruct (bucket_unmap_in _ _ _ Hin') as (b1 & cth & b2 & E1 & E2 & Hn1).
+    (* every cell of b' with key u carries th *)
+    assert (Hth : cth = th).
+    { assert (H : In (u, cth) (livec b')).
+      { apply in_livec. split; auto. rewrite E1. apply in_or_app. right. left. reflexivity. }
+      apply (Permutation_in _ P1) in H. destruct H as [H|H]; [congruence|].
+      apply in_livec in H. destruct H as [_ H]. destruct Hrep as [Hnd _].
+      pose proof (bucket_get_in _ _ _ Hu Hnd H) as G1.
+      pose proof (bucket_get_in _ _ _ Hu Hnd Hin) as G2. congruence. }
+    subst cth. split.
+    + rewrite E1. apply bucket_get_first. exact Hn1.
+    + eexists. split; [exact E2|].
+      apply (bucket_rep_perm i b); [|exact Hrep].
+      apply (Permutation_cons_inv (a := (u, th))).
+      apply Permutation_sym. eapply Permutation_trans; [|exact P1].
+      rewrite E1, !livec_app, livec_cons_null, livec_cons_nz by auto.
+      apply Permutation_middle.
+  - right. unfold bucket_map in E. destruct (bucket_reuse b u th); [inversion E|].
+    destruct ok; inversion E; auto.
+Qed.
+
+(* table level *)
+Lemma rep_remap_same t R u th ok t' r :
+  rep t R -> u <> UNIT_NULL -> R u th -> tbl_map t u th ok = (t', r) ->
+  (r = true /\ tbl_get t' u = Some th /\
+   exists t'', tbl_unmap t' u = Some t'' /\ rep t'' R) \/
+  (r = false /\ ok = false /\ t' = t).
+Proof.
+  intros [Hlen H] Hu HR. unfold tbl_map.
+  destruct (bucket_map (nth_bucket t (slot u)) u th ok) as [b' r0] eqn:Eb.
+  intros E; inversion E; subst; clear E.
+  pose proof (H (slot u) (slot_lt u)) as Hbr.
+  assert (Hin : In (u, th) (nth_bucket t (slot u))) by (apply (proj2 Hbr); auto).
+  assert (Hsl : (slot u < length t)%nat) by (rewrite Hlen; apply slot_lt).
+  destruct (bucket_remap_same _ _ _ _ _ _ _ _ Hbr Hu Hin Eb) as [(-> & Hg & b'' & Eu & Hrep'')|(-> & -> & ->)].
+  - left. split; [reflexivity|].
+    assert (Enth : nth_bucket (upd_nth t (slot u) b') (slot u) = b')
+      by (unfold nth_bucket; apply nth_upd_nth_eq; auto).
+    split; [unfold tbl_get; rewrite Enth; exact Hg|].
+    unfold tbl_unmap. rewrite Enth, Eu. eexists. split; [reflexivity|].
+    split; [rewrite !upd_nth_length; auto|].
+    intros i Hi. unfold nth_bucket. destruct (Nat.eq_dec (slot u) i) as [<-|Hne].
+    + rewrite nth_upd_nth_eq by (rewrite upd_nth_length; auto). exact Hrep''.
+    + rewrite !nth_upd_nth_ne by auto. apply (H i Hi).
+  - right. repeat split; auto. apply upd_nth_same.
+Qed.
+
+(* number of cells of a bucket whose unit field is u *)
+Definition key_count (b : bucket) (u : Z) : nat := length (filter (fun c : cell => fst c =? u) b).
+
+Lemma key_count_0 b u : (forall th, ~ In (u, th) b) -> key_count b u = 0%nat.
+Proof.
+  unfold key_count. induction b as [|[cu0 cth0] b IH]; cbn; auto. intros H.
+  destruct (Z.eqb_spec cu0 u) as [->|_].
+  - exfalso. apply (H cth0). auto.
+  - apply IH. intros th Hin. apply (H th). auto.
+Qed.
+
+(* in a bucket that represents a relation a mapped handle sits in exactly one
+   cell (tombstones and other handles aside) *)
+Lemma bucket_rep_key_count i b R u th :
+  bucket_rep i b R -> u <> UNIT_NULL -> In (u, th) b -> key_count b u = 1%nat.
+Proof.
+  intros [Hnd _] Hu. unfold key_count. induction b as [|[cu0 cth0] b IH]; cbn; [intros []|].
+  intros Hin. destruct (Z.eqb_spec cu0 u) as [->|Hne].
+  - cbn. f_equal. apply key_count_0. intros th0 Hin0.
+    unfold nzunits in Hnd. cbn in Hnd. unfold nz at 1 in Hnd.
+    destruct (Z.eqb_spec u UNIT_NULL); [contradiction|]. cbn in Hnd.
+    apply NoDup_cons_iff in Hnd. apply (proj1 Hnd). apply in_nzunits. eauto.
+  - destruct Hin as [E|Hin]; [congruence|]. apply IH; auto.
+    unfold nzunits in *. cbn in Hnd. destruct (nz cu0); auto.
+    apply NoDup_cons_iff in Hnd. tauto.
 Qed.
 
 (* a failed map leaves the table as it was (whatever the state) *)
